@@ -355,7 +355,7 @@ def run(pid, args):
     # fixed programs outside the type universe of the model: spellings of functors the pairings cannot express
     fx = fixed_programs(workdir + "-fixed")
     v.coverage["fixed_programs"] = {"count": len(FIXED), "wrong": [n for n, _ in fx]}
-    for n, (name, want, got, src, errtxt) in enumerate(fx[:3]):
+    for _n, (name, want, got, src, errtxt) in fx[:3]:
         v.violation("fixed-%s" % name, {"property": pid, "broken": "fixed program '%s' must %s" % (name, "compile" if want else "be rejected"), "cpp": src,
                                         "compiler_accepts": got, "compiler_output": errtxt[-1500:]})
     if not proof_ok and not v.violations:
